@@ -136,15 +136,34 @@ def build(shape_b, axis_sel, order, sign, func, vsel, lsel, fillsel, mode, engin
     return c
 
 
+def space(modes=None):
+    if modes is None:
+        modes = ["eager", "eager"] + [(ch, m, d) for ch in (1, 2, 3, 5, 7, 15) for m in (None, "map-reduce", "cohorts") for d in (False, True)]
+    return gen.Space("axes", {"shape_b": SHAPES, "axis_sel": range(7), "order": [False, True], "sign": [False, True], "func": FUNCS, "vsel": range(4),
+                              "lsel": range(5), "fillsel": range(2), "mode": modes, "engine": [None, "numpy", "flox"],
+                              "with_expected": [True, False]}, build)
+
+
+def nd_cohort_cases(rng, n):
+    """chunked N-D arrays with N-D labels reduced over ALL label axes under the cohorts strategy / the automatic choice
+    (used by C02 and C09 too: cohorts over an N-D chunk grid)"""
+    sp = space([(ch, m, False) for ch in (3, 5, 6, 7, 15) for m in (None, "cohorts")])
+    return [c for c in sp.sample(rng, 4 * n) if len(c["axis"]) == c["bndim"] and c["bndim"] >= 2][:n]
+
+
 def run(ctx):
     models.factorize(ctx)
-    modes = ["eager", "eager"] + [(ch, m, d) for ch in (1, 2, 3, 5, 7, 15) for m in (None, "map-reduce", "cohorts") for d in (False, True)]
-    sp = gen.Space("axes", {"shape_b": SHAPES, "axis_sel": range(7), "order": [False, True], "sign": [False, True], "func": FUNCS, "vsel": range(4),
-                            "lsel": range(5), "fillsel": range(2), "mode": modes, "engine": [None, "numpy", "flox"],
-                            "with_expected": [True, False]}, build)
+    sp = space()
     budget = 5000 if ctx.tier == "quick" else 120000
     cases = sp.sample(ctx.rng, budget)
     ctx.cov["space"] = {"axes": sp.size}
+    validate_axis_cases(ctx, cases, "c08")
+    ctx.cov["rule"] = ("(array shapes of 1-4 dims with extents <= 3, label arrays of 1-3 dims, every non-empty subset of label dims as axis in both orders and signs, "
+                       "missing labels spread unevenly, 13 reductions, eager | chunked along any subset of axes x method x numpy|dask labels); every kept-index slice is one record")
+    ctx.assumptions += ["arg-reductions and first/last only with a single reduced axis (the only case flox accepts for chunked input)"]
+
+
+def validate_axis_cases(ctx, cases, tag):
     recs = pmap("harness.drivers.c08", "run_axis_case", cases)
     errs = harness_errors(recs)
     if errs:
@@ -174,7 +193,7 @@ def run(ctx):
     if not lines:
         raise MachineryFailure("no call produced a result")
     ctrl = dict(lines[0], id=-7, out=[[v[0] + 3 * max(v[1], 1), max(v[1], 1)] for v in lines[0]["out"]])
-    fails, stats = tlc.validate_trace("TraceReduce", lines + [ctrl], tag="c08", shards=8)
+    fails, stats = tlc.validate_trace("TraceReduce", lines + [ctrl], tag=tag, shards=8)
     seen = False
     for f in fails:
         if f[1] == -7:
@@ -184,11 +203,8 @@ def run(ctx):
         ctx.violation({**brief, "slice": s["idx"], "vals": s["vals"], "codes": s["codes"]}, "slice:" + "+".join(sorted(f[2])), {"expected": f[3], "got": s["out"]})
     if not seen:
         raise MachineryFailure("binding control: corrupted slice record accepted")
-    ctx.add_traces(len(lines), stats, name="TraceReduce(slices)")
+    ctx.add_traces(len(lines), stats, name=f"TraceReduce(slices of N-D results, {tag})")
     ctx.sample({"call": owner[0][0], "slice": owner[0][1]})
-    ctx.cov["rule"] = ("(array shapes of 1-4 dims with extents <= 3, label arrays of 1-3 dims, every non-empty subset of label dims as axis in both orders and signs, "
-                       "missing labels spread unevenly, 13 reductions, eager | chunked along any subset of axes x method x numpy|dask labels); every kept-index slice is one record")
-    ctx.assumptions += ["arg-reductions and first/last only with a single reduced axis (the only case flox accepts for chunked input)"]
 
 
 def replay(ctx, payload):
